@@ -215,6 +215,12 @@ class DhtWorld:
             return wrap(fab_triples(4, port=r.choice([0, 1, 80, 1023, -5, 65536, 70000])))
         if beh == 'closer_fabricated':
             return wrap(fab_triples(20))
+        if beh == 'append_far_fabricated':
+            # the genuine answer plus made-up contacts far from the key: they sort behind the probe window and
+            # are still un-probed (status unknown) when the search ends
+            genuine = msg['response'] if method == b'findNode' else msg['response'].get(b'contacts', [])
+            genuine = [t for t in genuine if isinstance(t, list)]
+            return wrap(list(genuine) + fab_triples(r.choice([4, 8, 12]), closer=False))
         if beh == 'short_ids':
             return wrap([[b'ab' * r.randint(0, 30), b'44.44.44.44', 4444]])
         if beh == 'error':
@@ -261,7 +267,7 @@ class DhtWorld:
 
 
 HOSTILE_BEHAVIOURS = ['silent', 'garbage', 'truncated', 'wrong_types', 'short_triples', 'long_triples', 'reserved_ips',
-                      'own_id', 'own_addr', 'low_ports', 'closer_fabricated', 'short_ids', 'error', 'error_bad_fields',
+                      'own_id', 'own_addr', 'low_ports', 'closer_fabricated', 'append_far_fabricated', 'append_far_fabricated', 'short_ids', 'error', 'error_bad_fields',
                       'wrong_rpc_id', 'claims_requester_id', 'other_address', 'other_port', 'no_token', 'bogus_p',
                       'bad_compact', 'dup_compact', 'many_pages', 'requester_as_peer', 'misc']
 
